@@ -68,6 +68,7 @@ func scenarioC02(r *Run) {
 	}
 	conns := make([]*LConn, k)
 	active := 0
+	pausedBudgetApp, pausedBudgetTgt := 3<<20, 3<<20
 	for i := range conns {
 		ti := c.Pick(2, "channel")
 		lc := &LConn{I: i, TIdx: ti, Lsn: cfg.Listeners[ti]}
@@ -99,12 +100,28 @@ func scenarioC02(r *Run) {
 			if dir != 0 {
 				nt = PickSize(c, maxPayload, "tgt-bytes")
 			}
-			// a paused reader must hold far less than the multiplexer's shared 4 MiB buffer
-			if lc.Mode == "paused-app" && nt > 512*1024 {
-				nt = 512 * 1024
+			// Paused readers together must hold less than the multiplexer's shared 4 MiB receive buffer
+			// (the property's own bound): at most 3 MiB per side and run. One paused reader in three is a
+			// heavy one (0.6-3 MiB, whatever the tier's payload bound), on stream carriers.
+			if lc.Mode == "paused-app" {
+				if !CarrierIsKCP(carrier) && !CarrierIsDNS(carrier) && nt > 0 && c.Chance(1, 3, "heavy-pause") {
+					nt = 600*1024 + c.Pick(2400*1024, "heavy-bytes")
+					r.Count("heavy_paused_reader")
+				}
+				if nt > pausedBudgetApp {
+					nt = pausedBudgetApp
+				}
+				pausedBudgetApp -= nt
 			}
-			if lc.Mode == "paused-target" && na > 512*1024 {
-				na = 512 * 1024
+			if lc.Mode == "paused-target" {
+				if !CarrierIsKCP(carrier) && !CarrierIsDNS(carrier) && na > 0 && c.Chance(1, 3, "heavy-pause") {
+					na = 600*1024 + c.Pick(2400*1024, "heavy-bytes")
+					r.Count("heavy_paused_reader")
+				}
+				if na > pausedBudgetTgt {
+					na = pausedBudgetTgt
+				}
+				pausedBudgetTgt -= na
 			}
 		}
 		if first == "app" && na == 0 {
